@@ -331,7 +331,9 @@ def run_property(prop, tier, seed, build):
         return 2
     known = load_known()
     my_known = [k for k in known.get("findings", []) if k["property"] == prop]
-    caps = []
+    # safety caps: a run that is drowning in crashes has its verdict already; a capped run
+    # says so (exhaustive=false, cap_reason) and is never presented as complete
+    caps = ["--max-crashes", "20000" if prop == "C13" else "1500", "--max-secs", "900" if tier == "quick" else "2400"]
     summaries = []
     violations = []      # (clause, sig, count, witnesses, spec, variant, flags)
     others = {}
